@@ -32,7 +32,28 @@ class AuthMonitor(Monitor):
         self.w = world
         self.n_checked = 0
         self.n_prekey = 0
+        self.prev_temp = {}
         self.accepted_wids = {}      # conn name -> set of wire ids accepted (for replay classification)
+
+    def on_tick(self):
+        # server pools: the connection object (hence key and token) bound to an address that is in the middle of a
+        # handshake may only change by promotion, by its own timeout, or after a disconnect - never because some
+        # unauthenticated datagram arrived
+        w = self.w
+        now = w.k.now
+        cur = dict(w.ctxt.temp_connections)
+        for addr, old in self.prev_temp.items():
+            new = cur.get(addr)
+            if new is old or not old.session_key_bytes:
+                continue
+            promoted = w.ctxt.connections.get(addr) is old
+            age = old.clock() - old.last_recv_time
+            timed_out = age >= (w.ctxt.temp_connection_timeout or 2.0) * 0.95
+            if not promoted and not timed_out and old.status.value != ConnectionStatus.DISCONNECTED.value:
+                w.violation("keyed_pending_connection_replaced_without_authentication",
+                            {"addr": addr, "age_of_old": round(age, 4), "replaced_by_new_object": new is not None},
+                            key="replaced" if new is not None else "removed")
+        self.prev_temp = cur
 
     def pre_recv(self, conn, hdr, datagram):
         origin = getattr(datagram, "origin", "net")
@@ -64,9 +85,9 @@ class AuthMonitor(Monitor):
             self.n_prekey += 1
             expected = PacketType.CLIENT_HELLO.value if conn.isServer else PacketType.SERVER_HELLO.value
             if result is not False or snap1 != snap0:
+                # the statement allows exactly this: one hello message of the right kind (whatever the status of the
+                # key-less endpoint is), and never an application message delivered from it
                 ok = hdr.pkt_type.value == expected and hdr.count == 1 and snap1[12] == snap0[12]
-                if not conn.isServer and snap0[2] != ConnectionStatus.CONNECTING.value:
-                    ok = False
                 if not ok:
                     changed = [n for n, a, b in zip(SNAP_NAMES, snap0, snap1) if a != b]
                     w.violation("clear_datagram_other_than_single_hello_processed_before_key",
